@@ -243,27 +243,34 @@ def outcome_of(fn):
         return type(e).__name__, e
 
 
-def battery(w, pp):
-    """fixed battery of tracking answers + results, as comparable data"""
+def battery(w, pp, order=('used', 'flows', 'remaining')):
+    """fixed battery of tracking answers + results, as comparable data; `order` = order in which the three kinds of
+    question are asked (the answers must not depend on it: tracking queries are read-only)"""
     r = w.recipe
     out = {'steps': len(r.steps), 'stages': sorted((k, (v.start, v.stop)) for k, v in r.stages.items()),
            'results': {k: bench.view(v, pp) for k, v in sorted(r.results.items())}}
-    for key, obj in sorted(r.results.items()):
-        for sub in (w.salt, w.water):
-            try:
-                out[f"used:{key}:{sub.name}"] = r.get_substance_used(sub, 'all', 'umol', [obj])
-            except Exception as e:  # noqa
-                out[f"used:{key}:{sub.name}"] = type(e).__name__
-        try:
-            f = r.get_container_flows(obj, 'all', 'uL')
-            out[f"flows:{key}"] = {k: (v.tolist() if hasattr(v, 'tolist') else v) for k, v in f.items()}
-        except Exception as e:  # noqa
-            out[f"flows:{key}"] = type(e).__name__
-        try:
-            a = r.get_amount_remaining(obj, 'all', 'uL')
-            out[f"remaining:{key}"] = a.tolist() if hasattr(a, 'tolist') else a
-        except Exception as e:  # noqa
-            out[f"remaining:{key}"] = type(e).__name__
+    timeframes = sorted(r.stages.keys())
+    for kind in order:
+        for key, obj in sorted(r.results.items()):
+            for tf in timeframes:
+                if kind == 'used':
+                    for sub in (w.salt, w.water):
+                        try:
+                            out[f"used:{key}:{tf}:{sub.name}"] = r.get_substance_used(sub, tf, 'umol', [obj])
+                        except Exception as e:  # noqa
+                            out[f"used:{key}:{tf}:{sub.name}"] = type(e).__name__
+                elif kind == 'flows':
+                    try:
+                        f = r.get_container_flows(obj, tf, 'uL')
+                        out[f"flows:{key}:{tf}"] = {k: (v.tolist() if hasattr(v, 'tolist') else v) for k, v in f.items()}
+                    except Exception as e:  # noqa
+                        out[f"flows:{key}:{tf}"] = type(e).__name__
+                else:
+                    try:
+                        a = r.get_amount_remaining(obj, tf, 'uL')
+                        out[f"remaining:{key}:{tf}"] = a.tolist() if hasattr(a, 'tolist') else a
+                    except Exception as e:  # noqa
+                        out[f"remaining:{key}:{tf}"] = type(e).__name__
     return out
 
 
@@ -333,7 +340,14 @@ def run_sequence(col, pp, seq, long_=False):
                     m._end()
                 if not w.recipe.locked:
                     col.report('bake/not-locked', {}, case)
+                # tracking queries are read-only: the answers must not depend on the order they are asked in
+                first = battery(w, pp, ('flows', 'remaining', 'used'))
                 baseline = battery(w, pp)
+                again = battery(w, pp, ('flows', 'remaining', 'used'))
+                if first != baseline or again != baseline:
+                    diff = [k2 for k2 in baseline if first.get(k2) != baseline[k2] or again.get(k2) != baseline[k2]]
+                    col.report('after-bake/tracking-answers-depend-on-query-order', {'changed': diff[:5]}, case)
+                    return
             elif not was_locked:
                 col.label('bake-refused')
                 break          # behaviour after a failed bake is not covered by any clause
